@@ -552,6 +552,9 @@ def check_c12(pid, tier, seed, rep):
                               "%s %s: two imports share the name %s" % (os.path.basename(d), os.path.basename(f), twice[0]))
             for fn in rec["funcs"]:
                 names = [p["name"] for p in fn["params"]] + [v["name"] for v in fn["vars"]]
+                # the errgroup local, and the context local when it is a variable of its own
+                names += [fn["eg_name"]] if fn.get("eg_name") else []
+                names += [fn["ctx_name"]] if fn.get("ctx_fresh") and fn.get("ctx_name") else []
                 for th in fn["threads"]:
                     for op in th:
                         if op["op"] in ("call", "field") and (op.get("define") or not fn["has_var"]):
